@@ -80,6 +80,9 @@ type procScenario struct {
 	// Once: every unit is handed over exactly once, as the engine does (no retry when the
 	// processor answers "processor channel full")
 	Once bool `json:"once,omitempty"`
+	// Burst (with Once): the units are handed over back to back, with no pause in between — what the
+	// engine's loop does when the units of a message arrive together
+	Burst bool `json:"burst,omitempty"`
 	// task bounds to set on the Processor (0 = leave the real 1000 / 250)
 	MaxWorkers      int `json:"max_workers,omitempty"`
 	MaxPerPublisher int `json:"max_per_publisher,omitempty"`
@@ -493,7 +496,21 @@ func procChild(path string) {
 	// soon as Run has handled what the step caused; wait for that — briefly, and only until the first
 	// time it does not happen — then report what is there
 	gaveUp := false
+	// received: a Processor whose subprocessors have BUFFERED channels returns from ProcessMessage before
+	// the unit is looked at; wait until every queue is empty (a subprocessor works through its queue in
+	// order, so an empty queue means everything before the last unit has been dealt with)
+	received := func(patience time.Duration) {
+		deadline := time.Now().Add(patience)
+		for n := 0; probe.queued() > 0; n++ {
+			if time.Now().After(deadline) && n >= 200 {
+				return
+			}
+			drain()
+			time.Sleep(100 * time.Microsecond)
+		}
+	}
 	await := func(i int, pub peer.ID, patience time.Duration) (uint64, uint64) {
+		received(patience)
 		tk, pt, _ := probe.read(pub)
 		if i >= len(sc.Expect) || gaveUp {
 			return tk, pt
@@ -515,9 +532,8 @@ func procChild(path string) {
 	// (both under subMu): once the number of live subprocessors equals `tasks` nothing is in between.
 	// Then the store is read: key finalized? how many subprocessors?
 	settle := func(u *propeller.Unit, tk, pt *uint64, patience time.Duration) (*bool, *int) {
-		if len(sc.Expect) == 0 {
-			return nil, nil
-		}
+		// (also without expectations — the probes: a unit handed over while a subprocessor that has
+		// ended is still registered would go to that subprocessor, with a buffered channel silently)
 		_, _, live := probe.read(u.Publisher)
 		deadline := time.Now().Add(patience)
 		for n := 0; live >= 0 && uint64(live) != *tk && !gaveUp; n++ {
@@ -529,7 +545,7 @@ func procChild(path string) {
 			time.Sleep(200 * time.Microsecond)
 			*tk, *pt, live = probe.read(u.Publisher)
 		}
-		if live < 0 {
+		if live < 0 || len(sc.Expect) == 0 {
 			return nil, nil
 		}
 		fin := keyFinalized(p, u)
@@ -576,7 +592,7 @@ func procChild(path string) {
 			emit(procLine{Step: i, Res: res, Tasks: &tk, PTasks: &pt, T0: t0, T1: t1, Fin: fin, LiveN: liveN})
 		}
 		prev = i
-		if sc.Once {
+		if sc.Once && !sc.Burst {
 			time.Sleep(3 * time.Millisecond) // let the subprocessor work; nothing is retried
 		}
 		if res == "stuck" {
@@ -596,6 +612,7 @@ func procChild(path string) {
 	bu := cloneUnit(&w.units[0])
 	bu.ShardIndex = propeller.ShardIndex(w.k + w.c + 7)
 	res := hand(bu, w.outsider.id)
+	received(10 * time.Second)
 	time.Sleep(2 * time.Millisecond)
 	drain()
 	emit(procLine{Step: prev, Res: "events-of-previous", Events: pending, Note: note()})
@@ -691,6 +708,28 @@ func (t *taskProbe) read(pub peer.ID) (tasks, ptasks uint64, live int) {
 	t.subMu.Lock()
 	defer t.subMu.Unlock()
 	return tasks, ptasks, t.subs.Len()
+}
+
+// queued: the number of units waiting in the channels of the live subprocessors (0 for unbuffered
+// channels: a unit is handed over only when its subprocessor receives it). -1 if it cannot be read.
+func (t *taskProbe) queued() (n int) {
+	if t.subMu == nil {
+		return -1
+	}
+	defer func() {
+		if recover() != nil {
+			n = -1
+		}
+	}()
+	t.subMu.Lock()
+	defer t.subMu.Unlock()
+	it := t.subs.MapRange()
+	for it.Next() {
+		if it.Value().Kind() == reflect.Chan {
+			n += it.Value().Len()
+		}
+	}
+	return n
 }
 
 func (t *taskProbe) sumPublisherTasks() (sum uint64) {
@@ -2041,6 +2080,7 @@ func secProcessor(h *hctx, r *lib.RNG) {
 		}
 	}
 	procDeliverOnce(h, mk)
+	procBurst(h, mk)
 	if h.f.Thorough() {
 		raceFamily(h, mk)
 	}
@@ -2059,6 +2099,103 @@ func procDeliverOnce(h *hctx, mk func(n, local, pub, msgLen int, steps []procSte
 		scs = append(scs, sc)
 	}
 	evalOnce(h, scs)
+}
+
+// procBurst: the units of ONE message arrive together — the N-1 honest units are handed over exactly once
+// each, back to back, as the engine's loop does with the units it has queued (propeller.go pushes every
+// unit of a received batch into the engine's command channel; engine.go processUnit calls ProcessMessage
+// once per unit and only logs an error). ProcessMessage hands a unit to the message's subprocessor with
+// a NON-blocking send on an UNBUFFERED channel: every unit that arrives while the subprocessor validates
+// the previous one (a signature verification and a Merkle path) is dropped. Committees with k >= 2: the
+// message is built only if k units get through. 12 fresh processors; like the deliver-once family the
+// outcome has two stable regimes (dropped practically always / never), so the oracle is a count.
+func procBurst(h *hctx, mk func(n, local, pub, msgLen int, steps []procStepT) *procScenario) {
+	var scs []*procScenario
+	for i := 0; i < 12; i++ {
+		n := []int{7, 8, 10}[i%3]
+		idx := make([]int, n-1)
+		for j := range idx {
+			idx[j] = (j + i) % (n - 1)
+		}
+		sc := mk(n, i%2, 1-i%2, 20+i, honestSteps(idx))
+		sc.Once, sc.Burst = true, true
+		scs = append(scs, sc)
+	}
+	evalBurst(h, scs)
+}
+
+func evalBurst(h *hctx, scs []*procScenario) {
+	runs := runProcChildren(scs)
+	secondDropped, secondTaken, built, seen, lossy, lost, offered := 0, 0, 0, 0, 0, 0, 0
+	var example *procScenario
+	exampleText := ""
+	for i, pr := range runs {
+		if pr.machinery != "" {
+			h.res.Fatalf("processor child: %s", pr.machinery)
+			return
+		}
+		sc := scs[i]
+		obs, _, _ := collect(pr, len(sc.Steps))
+		h.res.Case(fmt.Sprintf("proc-burst/%d", i), true)
+		if pr.crashed || len(obs) < 2 || !obs[0].seen || !obs[1].seen {
+			continue
+		}
+		seen++
+		taken := 0
+		var rs []string
+		nb := 0
+		for _, o := range obs {
+			if o.res == "nil" {
+				taken++
+			}
+			rs = append(rs, o.res)
+			nb += len(o.events)
+		}
+		k := max(1, (sc.N-1)/3)
+		if taken >= k {
+			built++
+		}
+		dropped := 0
+		for _, x := range rs {
+			if x == "full" {
+				dropped++
+			}
+		}
+		offered += len(rs)
+		lost += dropped
+		if dropped > 0 {
+			lossy++
+		}
+		switch obs[1].res {
+		case "full":
+			secondDropped++
+		case "nil":
+			secondTaken++
+		}
+		if dropped > 0 {
+			if example == nil || taken < k {
+				example = sc
+				exampleText = fmt.Sprintf("n=%d (k=%d): ProcessMessage answered [%s] to the %d honest units of one message handed over once each, back to back: %d taken (threshold %d)",
+					sc.N, k, strings.Join(rs, " "), len(obs), taken, k)
+			}
+		}
+	}
+	h.res.HitN("proc-burst:units-offered", offered)
+	h.res.HitN("proc-burst:units-dropped-channel-full", lost)
+	h.res.HitN("proc-burst:second-unit-dropped", secondDropped)
+	h.res.HitN("proc-burst:second-unit-taken", secondTaken)
+	h.res.HitN("proc-burst:message-got-k-units", built)
+	if seen < 8 {
+		h.res.Fatalf("burst scenarios: only %d of %d produced results", seen, len(scs))
+		return
+	}
+	// (with room for the units of a message in the subprocessor's channel nothing is ever dropped here: 0)
+	if 2*lossy >= seen {
+		h.violate("processor-drops-units-handed-over-while-the-subprocessor-is-busy",
+			fmt.Sprintf("in %d of %d fresh processors honest units of a message, handed over once each right after one another (as the engine does), were refused with 'dropping shard, processor channel full' (%d of %d units; the second unit in %d cases); only %d of %d messages got their k units. %s",
+				lossy, seen, lost, offered, secondDropped, built, seen, exampleText),
+			map[string]any{"kind": "processor", "scenario": example})
+	}
 }
 
 // raceFamily (thorough tier): the same Processor under Go's race detector. A second child binary is
@@ -2253,15 +2390,14 @@ func probeProcessor(h *hctx) {
 	if !h.pcfg.ProcWired {
 		return // secProcessor reports it with failing inputs
 	}
-	// noPoison: a bad first unit, then the honest local shard: is it broadcast?
-	sc := mk(4, 0, 1, []procStepT{{Unit: 1, Corrupt: "shard-flip", Sender: "legit"}, {Unit: 0, Sender: "legit"}})
+	// noPoison: a bad first unit — is the message's key in the finalized cache once its subprocessor is
+	// gone? (EVIDENCE read from the Processor after everything has settled; not inferred from what a
+	// following unit does: when that unit is handed over — before or after Run has forgotten the
+	// subprocessor — is a matter of scheduling)
+	sc := mk(4, 0, 1, []procStepT{{Unit: 1, Corrupt: "shard-flip", Sender: "legit"}})
 	pr := runProcChild(sc)
-	obs, _, _ := collect(pr, len(sc.Steps))
-	n := 0
-	for _, o := range obs {
-		n += len(o.events)
-	}
-	h.pcfg.NoPoison = !pr.crashed && n > 0
+	_, finalP, _, evP := collectEv(pr, len(sc.Steps))
+	h.pcfg.NoPoison = !pr.crashed && finalP != "stuck" && finalP != "" && !evP.HonestKeyFinalized
 	// localFromPresent: build from a unit that is neither shard 0 nor the local shard
 	sc = mk(4, 1, 0, []procStepT{{Unit: 2, Sender: "legit"}})
 	pr = runProcChild(sc)
